@@ -268,8 +268,12 @@ def reduce_minmax(interp, v, axis, which):
 
     instantiate(interp.ctx, root.u)
     instantiate(interp.ctx, root.u2)
-    out = V(sym, rest, None, z3.Not(nonempty), v.inf)
-    out.meta = (which, dict(v=v, axis=space_axis, witness=w, nonempty=nonempty, instantiate=instantiate, dom=dom, root=root))
+    infflag = None
+    if v.inf is not None and not rest:
+        # an infinite entry makes the extremum of |x| infinite
+        infflag = reduce_anyall(interp, V(v.inf, v.axes), None, "any").t
+    out = V(sym, rest, None, z3.Not(nonempty), infflag)
+    out.meta = (which, dict(posinf=(v.meta == "posinf"), v=v, axis=space_axis, witness=w, nonempty=nonempty, instantiate=instantiate, dom=dom, root=root))
     interp.ctx.__dict__.setdefault("_extrema", []).append(out.meta[1])
     return out
 
@@ -346,6 +350,9 @@ def reduce_opaque(interp, v, axis, what, nonneg=False):
 
 
 def reduce_anyall(interp, v, axis, which):
+    """any / all along an axis as a boolean symbol b with its defining facts: a Skolem witness when b is true
+    (any) / false (all), and instances "row i satisfies the condition => ..." at the generic rows; further instances
+    are added by ghost instantiation (meta['instantiate'](ctx, index))."""
     ax = _axis(v, axis)
     rest = tuple(a for i, a in enumerate(v.axes) if i != ax)
     if rest:
@@ -353,20 +360,22 @@ def reduce_anyall(interp, v, axis, which):
     cond = v.t if which == "any" else z3.Not(v.t)
     root, body_u = _rows_cond(v.axes[ax], cond)
     b = z3.Bool(fresh_name(which))
-    x = z3.Int(fresh_name("i"))
-    body = z3.substitute(body_u, (root.u, x))
-    rng = z3.And(x >= 0, x < root.n) if not hasattr(root, "keyvars") else z3.BoolVal(True)
     w = z3.Int(fresh_name("w"))
-    wfact = z3.And(w >= 0, w < root.n, z3.substitute(body, (x, w))) if not hasattr(root, "keyvars") else z3.substitute(body, (x, w))
-    if which == "any":
-        interp.ctx.assume(z3.Implies(b, wfact))
-        interp.ctx.assume(z3.ForAll([x], z3.Implies(z3.And(rng, body), b)))
-    else:
-        interp.ctx.assume(z3.Implies(z3.Not(b), wfact))
-        interp.ctx.assume(z3.ForAll([x], z3.Implies(z3.And(rng, body), z3.Not(b))))
-    # generic-row instances
-    interp.ctx.assume(z3.Implies(z3.And(*root.facts(), body_u), b if which == "any" else z3.Not(b)))
-    return V(b)
+    keyed = hasattr(root, "keyvars")
+    inr = (lambda i: z3.BoolVal(True)) if keyed else (lambda i: z3.And(i >= 0, i < root.n))
+    body = lambda i: z3.substitute(body_u, (root.u, i))  # noqa: E731
+    hit = b if which == "any" else z3.Not(b)
+    interp.ctx.assume(z3.Implies(hit, z3.And(inr(w), body(w))))
+
+    def instantiate(ctx, i):
+        ctx.assume(z3.Implies(z3.And(inr(i), body(i)), hit))
+
+    instantiate(interp.ctx, root.u)
+    instantiate(interp.ctx, root.u2)
+    out = V(b)
+    out.meta = (which, dict(which=which, instantiate=instantiate, witness=w, root=root, b=b))
+    interp.ctx.__dict__.setdefault("_anyall", []).append(out.meta[1])
+    return out
 
 
 # ---- lemma applications (ghost code in contracts) ---------------------------------------------------
